@@ -198,6 +198,10 @@ func runCase(c caseSpec) {
 	if aborted.Load() {
 		return
 	}
+	if c.Scenario == "mcast-fault" {
+		runMcastFault(c)
+		return
+	}
 	evals.Add(1)
 	run.Count("cases:"+c.Scenario+"/"+c.Action, 1)
 	log := newCbLog()
@@ -578,6 +582,14 @@ func cases() []caseSpec {
 							YieldPm: []int{0, 50, 200}[r.Intn(3)], Seed: r.Int63()})
 					}
 				}
+			}
+		}
+	}
+	// multicast listener allocation that fails at the second / third media
+	for k := 0; k < run.Pick(2, 10); k++ {
+		for cut := 1; cut <= 2; cut++ {
+			for _, a := range []string{"close", "retry"} {
+				out = append(out, caseSpec{Scenario: "mcast-fault", Transport: "mcast", Clients: 1, Cut: cut, Action: a, Seed: r.Int63()})
 			}
 		}
 	}
